@@ -418,6 +418,12 @@ fn main() {
         cases.push(Case { class: "single:three_headers".into(), cpp: false, start: None, ops: vec![h("cfg_a.h"), h("cfg_b.h"), h("cfg_c.h")] });
         cases.push(Case { class: "single:four_headers".into(), cpp: false, start: None, ops: vec![h("cfg_a.h"), h("cfg_b.h"), h("cfg_c.h"), h("t.h"),
             Op { m: "clang_arg".into(), a: vec!["-DFOUR".into()] }] });
+        // a user `-include` among the clang arguments: `generate` puts user arguments before the `-include`s of the
+        // non-last headers, the flag list must reproduce that order
+        cases.push(Case { class: "single:user_include_then_headers".into(), cpp: false, start: None, ops: vec![h("cfg_b.h"), h("cfg_c.h"),
+            Op { m: "clang_args".into(), a: vec!["-include".into(), dir.join("cfg_a.h").to_string_lossy().into_owned()] }] });
+        cases.push(Case { class: "single:headers_then_user_include".into(), cpp: false, start: None, ops: vec![
+            Op { m: "clang_arg".into(), a: vec!["-include".into()] }, Op { m: "clang_arg".into(), a: vec![dir.join("cfg_a.h").to_string_lossy().into_owned()] }, h("cfg_b.h"), h("cfg_c.h"), h("t.h")] });
         cases.push(Case { class: "single:headers_list3".into(), cpp: false, start: None, ops: vec![
             Op { m: "headers".into(), a: vec![dir.join("cfg_a.h").to_string_lossy().into_owned(), dir.join("cfg_b.h").to_string_lossy().into_owned(), dir.join("cfg_c.h").to_string_lossy().into_owned()] }] });
     }
